@@ -140,11 +140,28 @@ require github.com/anishathalye/porcupine v1.3.0
 replace verif.local/vsim => %s/sim
 replace github.com/msteinert/pam => %s/stubs/pam
 `, home, home)
+	// The kernel module needs go >= 1.26, and a main module must declare at least the go
+	// version of its dependencies: the go command would rewrite the line anyway (on every
+	// build, which also defeated the build cache). NOTE: the repository's packages are
+	// therefore compiled with go1.26 language semantics (per-iteration loop variables) and
+	// current GODEBUG defaults; see DESIGN.md section 7.
+	content := strings.Replace(string(src), "\ngo 1.13\n", "\ngo 1.26\n", 1) + extra
 	dst := filepath.Join(build, "go.mod")
-	writeIfChanged(dst, append(src, []byte(extra)...))
+	// go tidies the file after the first build (moves require lines); rewrite it only when
+	// its inputs change, so that an unchanged tree always builds from the same bytes.
+	stamp := filepath.Join(build, "go.mod.inputs")
+	if old, err := os.ReadFile(stamp); err != nil || string(old) != content {
+		writeIfChanged(dst, []byte(content))
+		os.WriteFile(stamp, []byte(content), 0644)
+	} else if _, err := os.Stat(dst); err != nil {
+		writeIfChanged(dst, []byte(content))
+	}
+	sumStamp := filepath.Join(build, "go.sum.inputs")
 	sum, _ := os.ReadFile(filepath.Join(repo, "go.sum"))
-	extraSum, _ := os.ReadFile(filepath.Join(home, "driver", "extra.sum"))
-	writeIfChanged(filepath.Join(build, "go.sum"), append(sum, extraSum...))
+	if old, err := os.ReadFile(sumStamp); err != nil || string(old) != string(sum) {
+		writeIfChanged(filepath.Join(build, "go.sum"), sum)
+		os.WriteFile(sumStamp, sum, 0644)
+	}
 	return dst
 }
 
